@@ -13,6 +13,17 @@ EIG_NOTE = ('the contracts of scipy eigsh/eigs/eigh/eig and of sparse.remove_nul
             'ordering, positivity/ascending order of computed values and sparse/dense agreement are not decidable by contracts and are not claimed')
 
 CHECKS = {
+ 'C08': dict(
+    category='proof',
+    text=('calc_fint, fkL_num and fkG_num of the flat and cylindrical numerical kernels are extracted and executed symbolically at a generic integration point '
+          '(symbolic point, weight, quadrature orders, series orders, term indices; state sums over the series as canonical sum terms; uniform and per-point '
+          'laminate): the internal-force entry is proved equal to the formal derivative dU/dc_A of the energy density U = w (ab/4) 1/2 eps^T F eps with the '
+          'quadratic slope terms, the sum of the kL and kG entries to d2U/dc_A dc_B (hence symmetric and the exact Jacobian for every state and every rule), '
+          'and the internal force vanishes for zero state sums; Panel.calc_kT / calc_fint pass the caller state, the laminate of the definition, offsets and '
+          'quadrature orders (assembly versions: C13).'),
+    design_ref='DESIGN.md section 4 (C08)',
+    note=KERNEL_NOTE + '; integrand-level: exactness of Gauss quadrature for the quartic integrand is the C10 contract; reduction to K0*c for small states follows from the polynomial identity, not separately stated',
+    technique='contracts + symbolic execution (generic-iteration schema with accumulators); formal differentiation of the spec; exact normal form'),
  'C20': dict(
     category='proof',
     text=('history independence as frame/effect obligations over the real Panel methods executed symbolically (down to the kernel and field contracts): '
@@ -124,7 +135,7 @@ CHECKS = {
     text=('fkG0/fkG0y1y2 of all four panel kernels proved entry-wise equal to the Hessian of 1/2 int(Nxx w,x^2 + 2Nxy w,x w,y + Nyy w,y^2) for symbolic '
           'indices and inputs (hence w-only, symmetric, linear in the resultants); Panel.calc_kG0 executed symbolically over its shape configurations '
           'with argument pass-through obligations.'),
-    design_ref='DESIGN.md section 4 (C03)', note=KERNEL_NOTE + '; state-dependent route fkG_num: see evidence (unchecked items listed there)',
+    design_ref='DESIGN.md section 4 (C03)', note=KERNEL_NOTE + '; the state-based kernel fkG_num is proved at integrand level (resultants N = A eps + B kappa of the state, uniform and per-point table)',
     technique='contracts on kernels and Python methods; symbolic execution; exact normal form + z3'),
  'C04': dict(
     category='proof',
